@@ -75,7 +75,12 @@ func cropProjects(c *core.Ctx, n int) []*gen.Project {
 				p.Cfg.Lat100 = 4500 + r.Intn(1000) // long midsummer days (the maturity groups differ in their day-length response)
 			}
 		}
-		p.Cfg.CO2Method = 1 + i%3
+		// CO2 response method and N supply vary independently (i modulo 3 and i div 3 modulo 3); every other block of nine
+		// runs under a CO2 concentration of the end of the century
+		p.Cfg.CO2Method = 1 + (i/3)%3
+		if (i/9)%2 == 1 || i%7 == 3 {
+			p.Cfg.CO2Conc = 650 + r.Intn(150)
+		}
 		if i%2 == 1 || (early && i%4 != 0) {
 			p.Cfg.CropParamFmt = "yml"
 		}
@@ -93,7 +98,7 @@ func cropProjects(c *core.Ctx, n int) []*gen.Project {
 				p.Fert = append(p.Fert, gen.FertEv{Date: e.Sow + 10, Kg: 80, Type: "KAS"})
 			}
 		}
-		p.Arms = []string{fmt.Sprintf("crop=%s variety=%q params=%s stress=%d co2=%d nsupply=%d rootLimitIsProfile=%v earlyHarvest=%v highLat=%v", crop, variety, p.Cfg.CropParamFmt, stress, p.Cfg.CO2Method, nsupply, rootArm, early, highLat)}
+		p.Arms = []string{fmt.Sprintf("crop=%s variety=%q params=%s stress=%d co2method=%d co2ppm=%d nsupply=%d rootLimitIsProfile=%v earlyHarvest=%v highLat=%v", crop, variety, p.Cfg.CropParamFmt, stress, p.Cfg.CO2Method, p.Cfg.CO2Conc, nsupply, rootArm, early, highLat)}
 		ps = append(ps, p)
 	}
 	return ps
